@@ -261,3 +261,112 @@ Proof. intros CO L WF DE. unfold dropped. apply filter_none. intros f Hf.
     apply negb_true_iff in IS. apply negb_true_iff in IS3.
     apply setting_observed; [exact (FOK f Hf) | exact T | exact IS | exact IS3 | | exact IS1].
     intros E. rewrite E in IS2. discriminate IS2. Qed.
+
+(* ================================================================== *)
+(* completeness: the model's own observation raises no code            *)
+(* ================================================================== *)
+(* the only guard: a Default() case carries no "the bytes are not a JSON object" mark (the harness writes that mark for
+   raw byte strings only, and those are LoadJSON cases) *)
+Definition default_guard (m : mode) (j : json) : Prop :=
+  match m with MDefault => jhas "=notobject" j = false | _ => True end.
+
+Lemma model_eqb_model S V m j dn : model_eqb S V m j (model_obs S V m j dn) = true.
+Proof. unfold model_eqb, model_obs. destruct (model_run S V m j) as [c|]; [|reflexivity].
+  rewrite saved_eq_refl. simpl. destruct m; auto using direct_eq_model. Qed.
+
+Lemma spec_fails_model S V m j dn :
+  schema_coherentb S = true -> V (oracle_of j) (cget S (defaults S)) = true -> default_roundtrip S V (oracle_of j) ->
+  default_guard m j -> spec_fails S m j (model_obs S V m j dn) = [].
+Proof. intros CO DV DS G. unfold model_obs. destruct (model_run S V m j) as [c|] eqn:MR.
+  - destruct (model_run_valid_roundtrip S V m j c CO DS MR) as [Vv RT].
+    unfold spec_fails. rewrite Vv. unfold rt_b. rewrite RT, cfg_eqb_refl, (leak_b_model S c CO). simpl.
+    destruct m; try reflexivity. destruct (wf_doc S j) eqn:WF; [|reflexivity].
+    unfold model_run in MR. cbv zeta in MR. destruct (jhas "=notobject" j); [discriminate|].
+    rewrite (dropped_model S V _ j c _ CO MR WF (direct_eq_model S c dn)). reflexivity.
+  - unfold spec_fails. destruct m; try reflexivity. exfalso.
+    unfold model_run in MR. cbv zeta in MR. simpl in G. rewrite G, DV in MR. discriminate. Qed.
+
+(* the schema a case names *)
+Lemma find_schema_some n l sc : find_schema n l = Some sc -> In sc l /\ sname sc = n.
+Proof. induction l as [|x r IH]; simpl; [discriminate|]. destruct (String.eqb_spec n (sname x)) as [E|N].
+  - intros H. inversion H; subst. auto.
+  - intros H. destruct (IH H). auto. Qed.
+Lemma find_schema_in l : nodup_strs (map sname l) = true -> forall sc, In sc l -> find_schema (sname sc) l = Some sc.
+Proof. induction l as [|x r IH]; simpl; intros ND sc I; [tauto|]. apply andb_true_iff in ND. destruct ND as [N1 N2].
+  destruct I as [->|I]; [now rewrite String.eqb_refl|].
+  destruct (String.eqb_spec (sname sc) (sname x)) as [E|N]; [|now apply IH].
+  exfalso. apply negb_true_iff in N1. assert (X : existsb (String.eqb (sname x)) (map sname r) = true); [|congruence].
+  apply existsb_exists. exists (sname sc). split; [now apply in_map|]. rewrite E. apply String.eqb_refl. Qed.
+Lemma section_names_unique : nodup_strs (map sname all_schemas) = true.
+Proof. vm_compute. reflexivity. Qed.
+Lemma find_schema_tables sc : In sc all_schemas -> find_schema (sname sc) all_schemas = Some sc.
+Proof. apply find_schema_in. exact section_names_unique. Qed.
+
+Lemma default_roundtrip_tables S orc : In S all_schemas -> default_roundtrip S (validator_of (sname S)) orc.
+Proof. intros I. unfold default_roundtrip.
+  pose proof (defaults_stable_tables orc) as A. rewrite forallb_forall in A. specialize (A _ I).
+  unfold default_stableb in A. destruct (load _ _ _ _) as [c|].
+  - intros _. f_equal. now apply cfg_eqb_eq.
+  - intros Vd. rewrite Vd in A. discriminate A. Qed.
+
+(* for every generated section, mode (LoadJSON, Default, LoadJSON + ApplyEnvVars under any environment), document
+   (with any oracle answers in it) and list of directly read members: no code at all, code 1 included *)
+Theorem sections_model_passes_monitor_l id S m j dn : In S all_schemas -> default_guard m j ->
+  check_case (id, (sname S, m, j, model_obs S (validator_of (sname S)) m j dn)) = [].
+Proof. intros I G. unfold check_case. rewrite (find_schema_tables S I). cbv zeta.
+  rewrite model_eqb_model.
+  rewrite (spec_fails_model S _ m j dn (coherent_in S I) (default_valid_in S _ I) (default_roundtrip_tables S _ I) G).
+  reflexivity. Qed.
+
+(* the generic form: every coherent table, validator and document *)
+Theorem model_passes_monitor_l S V m j dn :
+  schema_coherentb S = true -> V (oracle_of j) (cget S (defaults S)) = true -> default_roundtrip S V (oracle_of j) ->
+  default_guard m j ->
+  model_eqb S V m j (model_obs S V m j dn) = true /\ spec_fails S m j (model_obs S V m j dn) = [].
+Proof. intros CO DV DS G. split; [apply model_eqb_model | now apply spec_fails_model]. Qed.
+
+(* ================================================================== *)
+(* soundness: what the absence of a code says about the observation    *)
+(* ================================================================== *)
+Definition has_code (c : N) (l : list (N * N * N)) : Prop := exists x, In x l /\ snd (fst x) = c.
+
+(* every setting of the document is the observed value of its member *)
+Definition settings_kept (S : schema) (j saved direct : json) : Prop :=
+  forall f, In f (sfields S) -> is_setting f j = true ->
+    same_val (fkind f) (canon_in (jval (fname f) j)) (obs_member f saved direct).
+
+Lemma has_code_spec id c S V m j o t :
+  In (c, t) (spec_fails S m j o) -> c <> 1%N ->
+  has_code c ((if model_eqb S V m j o then [] else [(id, 1%N, 0%N)]) ++ map (fun '(code, tag) => (id, code, tag)) (spec_fails S m j o)).
+Proof. intros I _. exists (id, c, t). split; [|reflexivity]. apply in_or_app. right.
+  apply in_map_iff. exists (c, t). auto. Qed.
+
+Theorem sections_monitor_sound_l id sn S m j saved direct valid rt leak :
+  find_schema sn all_schemas = Some S ->
+  let r := check_case (id, (sn, m, j, ObsOk saved direct valid rt leak)) in
+  (~ has_code 10 r -> ~ has_code 14 r -> valid = true) /\
+  (~ has_code 11 r -> rt = true) /\
+  (~ has_code 12 r -> leak = false) /\
+  (~ has_code 13 r -> m = MLoad -> wf_doc S j = true -> settings_kept S j saved direct).
+Proof. intros F r. subst r. unfold check_case. rewrite F. cbv zeta.
+  set (V := validator_of sn).
+  split; [|split; [|split]].
+  - intros N10 N14. destruct valid; [reflexivity|]. exfalso. destruct m.
+    + apply N10. eapply has_code_spec; [|discriminate]. simpl. left. reflexivity.
+    + apply N14. eapply has_code_spec; [|discriminate]. simpl. left. reflexivity.
+    + apply N10. eapply has_code_spec; [|discriminate]. simpl. left. reflexivity.
+  - intros N11. destruct rt; [reflexivity|]. exfalso. apply N11. eapply has_code_spec; [|discriminate].
+    unfold spec_fails. apply in_or_app. right. apply in_or_app. left. left. reflexivity.
+  - intros N12. destruct leak; [|reflexivity]. exfalso. apply N12. eapply has_code_spec; [|discriminate].
+    unfold spec_fails. apply in_or_app. right. apply in_or_app. right. apply in_or_app. right. apply in_or_app. left. left. reflexivity.
+  - intros N13 -> WF f Hf IS. apply veq_same_val.
+    destruct (veq (fkind f) (canon_in (jval (fname f) j)) (obs_member f saved direct)) eqn:E; [reflexivity|]. exfalso.
+    apply N13. eapply (has_code_spec id 13%N S V MLoad j _ (tag_of_dropped S j f)); [|discriminate].
+    unfold spec_fails. do 4 (apply in_or_app; right). rewrite WF.
+    apply in_map_iff. exists f. split; [reflexivity|]. unfold dropped. apply filter_In. split; [exact Hf|].
+    rewrite IS, E. reflexivity. Qed.
+
+(* Default() refused: code 14 *)
+Theorem sections_monitor_sound_default_l id sn S j :
+  find_schema sn all_schemas = Some S -> has_code 14 (check_case (id, (sn, MDefault, j, ObsErr))).
+Proof. intros F. unfold check_case. rewrite F. cbv zeta. eapply has_code_spec; [|discriminate]. simpl. left. reflexivity. Qed.
